@@ -3,6 +3,7 @@ package c15
 import (
 	"encoding/json"
 	"fmt"
+	"reflect"
 	"strings"
 	"testing"
 )
@@ -89,6 +90,34 @@ func TestFileShapes(t *testing.T) {
 		}
 		ms.name = "manager:" + label
 		tr.judge(nil, string(file), res, rerun)
+		if len(unregistered) > 0 && res.saved != nil {
+			// What a Manager without some components saves must still hold
+			// those components' settings: a Manager that has them registered
+			// reads from the saved file what it reads from the original.
+			unreg := unregistered
+			unregistered = nil
+			a := runFile(nil, file, nil)
+			b := runFile(nil, res.saved, nil)
+			unregistered = unreg
+			if a.saved != nil {
+				fa, _ := parseObj(a.saved)
+				fb := map[string]interface{}{}
+				if b.saved != nil {
+					fb, _ = parseObj(b.saved)
+				}
+				for _, s := range sections {
+					if !unreg[s.name] {
+						continue
+					}
+					R.Eval(sec, "kept-by-partial-manager|"+label+"|"+s.name, true)
+					if !reflect.DeepEqual(sectionOf(fa, s), sectionOf(fb, s)) {
+						R.Violation("C15|file-shape|saved-by-a-manager-without-the-component|settings-of-the-unregistered-section-lost|"+s.name, map[string]interface{}{
+							"case": label, "section": s.name, "full_manager_reads_from_original": sectionOf(fa, s), "full_manager_reads_from_saved": sectionOf(fb, s),
+							"load_error_of_saved": fmt.Sprint(b.loadErr)})
+					}
+				}
+			}
+		}
 	}
 	run("all-sections", fileDoc(nil, nil))
 	rich := map[string][]byte{}
